@@ -456,9 +456,13 @@ def _calculate_statistic(
 
     min_x: float64 = min(x)
     if isnan(p).any():
-        y = zeros(3, dtype=float64)
+        # Fall back to the values at the points that are closest to the
+        # approximated transition and end points.
+        nearest_y: NDArray[float64] = zeros(3, dtype=float64)
         for i, _x in enumerate((min_x, intercept_x, max_x)):
-            y[i] = y[argmin(abs(x - _x)).flatten()]
+            nearest_y[i] = y[argmin(abs(x - _x))]
+        x = array([min_x, intercept_x, max_x], dtype=float64)
+        y = nearest_y
     else:
         x = array([min_x, intercept_x, max_x], dtype=float64)
         y = _intersecting_lines_function(x, *p)
